@@ -880,9 +880,15 @@ func registerMisc(e *Engine) {
 	// the CPU variant of the machine (cpuid assembly natively): an arbitrary one of the documented values
 	e.on("github.com/regclient/regclient/types/platform.cpuVariant", func(fr *Frame, a []Value) Value {
 		e.noteUse("model: the local CPU variant is an arbitrary value of {\"\", v1..v4} (environment)")
+		// one machine per run: the same value at every call on a path
+		if v, ok := fr.p.ghost["env_cpu_variant"]; ok {
+			return v.(Str)
+		}
 		f := &Fin{Choices: []string{"", "v1", "v2", "v3", "v4"}}
 		f.Idx = fr.p.symInt("env_cpu_variant", 0, 4)
-		return Str{Fin: f}
+		r := Str{Fin: f}
+		fr.p.ghost["env_cpu_variant"] = r
+		return r
 	})
 	e.on("runtime/debug.ReadBuildInfo", func(fr *Frame, a []Value) Value { return Tuple{(*Value)(nil), smt.False} })
 	e.on("os.Getenv", func(fr *Frame, a []Value) Value { return Str{} })
